@@ -227,12 +227,15 @@ class Gen:
         idx = len(sc.steps)
 
         def d(hres, i, oid=oid, user=user, addr=addr, msg=msg, created=created, root=root):
-            keep = keep_from_manifest(hres[i + 1]) if hres[i].startswith("ok") else "default"
+            # the dedup choice is observable in the committed manifest, or — when the install failed
+            # after `dedup_head` was persisted — in the staged manifest
+            keep = keep_from_manifest(hres[i + 1]) if hres[i].startswith("ok") else keep_from_manifest(hres[i + 2])
             has_root = 1 if (self.layout[0] != "none" or root) else 0
             return "commit %s %d %s %s %s %s %s" % (hx(oid), has_root, hx(user) if user else "-", hx(addr) if addr else "-",
                                                    hx(msg) if msg else "-", created, keep)
         r = sc.add("commit", h, d, kind="mut", id=oid, user=user, addr=addr, msg=msg, created=created)
         sc.add("manifest", "manifest %s" % hx(oid), kind="manifest", id=oid)
+        sc.add("smanifest", "smanifest %s" % hx(oid), kind="manifest", id=oid)
         self.observe_main(oid)
         if self.observe_history:
             self.observe_hist(oid)
@@ -302,10 +305,11 @@ class Gen:
             h = "upgrade %s 1.1 %s - %s %s 0" % (hx(oid), hx("me"), hx("upgrade"), created)
 
             def d(hres, i, oid=oid, created=created):
-                keep = keep_from_manifest(hres[i + 1]) if hres[i].startswith("ok") else "default"
+                keep = keep_from_manifest(hres[i + 1]) if hres[i].startswith("ok") else keep_from_manifest(hres[i + 2])
                 return "upgrade %s 1.1 %d %s - %s %s %s" % (hx(oid), 0 if self.layout[0] == "none" else 1, hx("me"), hx("upgrade"), created, keep)
             sc.add("upgrade", h, d, kind="mut", id=oid)
             sc.add("manifest", "manifest %s" % hx(oid), kind="manifest", id=oid)
+            sc.add("smanifest", "smanifest %s" % hx(oid), kind="manifest", id=oid)
             self.observe_main(oid)
         elif op == "new":
             sc.add("new", "new %s sha512 %s 0 -" % (hx(oid), hx("content")), kind="mut", id=oid, cdir="content")
